@@ -138,6 +138,18 @@ CLAIMED = {
         "note": "lmfit.Parameters/MinimizerResult and pandas.DataFrame replaced by name->value stand-ins; <=3 (4) elements; one known finding "
                 "(variable naming of equally labelled elements of different types)",
     },
+    "C20": {
+        "category": "other",
+        "text": "Circuit shapes (every series/parallel nest of <=3 (4) leaves within depth 2 (3), direct construction incl. single-item connections, "
+                "every registered element type at the leaves, labelled/unlabelled mixes) are enumerated exhaustively by solver-driven choices. The "
+                "real to_circuitikz runs with node_width and node_height as positive z3 reals, so its layout comparisons are solver-decided "
+                "branches; on every path: no exception, balanced begin/end, exactly one to[...] component per element of the connections (a "
+                "container counts once), labelled as get_element_name names it. to_sympy (variables = one per parameter; only f after "
+                "substitution), to_latex and to_drawing are executed concretely on every explored shape. The shape part is bounded exhaustive "
+                "enumeration; the solver's share is branch feasibility and layout arithmetic.",
+        "design_ref": "DESIGN.md section 4, C20",
+        "note": "default parameter values; one known finding (single-item parallel connection built directly); rendering by LaTeX/matplotlib not checked",
+    },
 }
 
 NOT_APPLICABLE = {
